@@ -20,6 +20,8 @@
  *   unreadable        [-1]
  * The driver never decides anything: it renders arguments, calls, copies.
  */
+#undef strdup        /* -Dstrdup=vf_strdup is for the library sources only */
+#include "seam.h"   /* the layout sources are compiled through the allocation seam (bin/vseam.py) */
 #include "drv.h"
 
 #include <math.h>
@@ -49,6 +51,27 @@ struct lobj {
 };
 static struct lobj obj[2];
 static int cur_kind = K_NONE;
+
+/* strdup of the library sources (-Dstrdup=vf_strdup): an allocation like any other */
+char *vf_strdup(const char *s)
+{
+	size_t n = strlen(s) + 1;
+	char *p = (char *) vf_malloc(n);
+	if (p) memcpy(p, s, n);
+	return p;
+}
+/* fail=k: the k-th allocation (malloc/calloc/realloc/strdup) the library makes during the call fails, once */
+static void fail_arm(const struct cmd *c)
+{
+	long long k = drv_int(c, "fail", 0);
+	vf_fail_after = k > 0 ? (long) (k - 1) : -1;
+}
+static int fail_fired;
+static void fail_disarm(const struct cmd *c)
+{
+	fail_fired = drv_int(c, "fail", 0) > 0 && vf_fail_after < 0;
+	vf_fail_after = -1;
+}
 
 #define OBJ_OF_O(p) ((struct lobj *) (((char *) (p)) - offsetof(struct lobj, o)))
 #define OBJ_OF_C(p) ((struct lobj *) (((char *) (p)) - offsetof(struct lobj, c)))
@@ -160,6 +183,8 @@ static void drv_reset(void)
 		obj_fini(&obj[1]);
 	}
 	cur_kind = K_NONE;
+	vf_reset();          /* a block lost in one behaviour is not counted again in the next */
+	fail_fired = 0;
 }
 
 /* decode a property value by its reported type */
@@ -232,6 +257,20 @@ static int shared_strings(void)
 	}
 	return n;
 }
+/* live library blocks that no string member of the two objects points to; releases of unknown blocks */
+static void emit_heap(void)
+{
+	char **a[4];
+	long own = 0;
+	int o, i, n;
+	for (o = 0; o < 2; o++) {
+		n = obj_strings(&obj[o], a);
+		for (i = 0; i < n; i++) if (*a[i] && vf_find(*a[i])) own++;
+	}
+	j_int("fired", fail_fired);
+	j_int("leak", vf_live() - own);
+	j_int("badfree", vf_badfree);
+}
 static void answer(struct cmd *c, int rc)
 {
 	drv_begin(c);
@@ -239,6 +278,7 @@ static void answer(struct cmd *c, int rc)
 	emit_props("p0", &obj[0]);
 	emit_props("p1", &obj[1]);
 	j_int("shared", shared_strings());
+	emit_heap();
 	drv_dbg();
 	j_int("rc", rc);
 	drv_end();
@@ -440,6 +480,7 @@ static void drv_step(struct cmd *c)
 	const char *a = c->action;
 	int o = (int) drv_int(c, "o", 0) & 1;
 
+	fail_fired = 0;
 	if (!strcmp(a, "init")) {
 		int k = kind_of(drv_raw(c, "kind"));
 		drv_reset();
@@ -456,12 +497,16 @@ static void drv_step(struct cmd *c)
 	if (!strcmp(a, "set") || !strcmp(a, "reset") || !strcmp(a, "auto")) {
 		char *name = strcmp(a, "auto") ? arg_name(c) : 0;   /* auto: no name */
 		char text[256];
-		int rc = do_set(&obj[o], name, c, text, sizeof(text));
+		int rc;
+		fail_arm(c);
+		rc = do_set(&obj[o], name, c, text, sizeof(text));
+		fail_disarm(c);
 		drv_begin(c);
 		j_str("ret", rc < 0 ? "refused" : "ok");
 		emit_props("p0", &obj[0]);
 		emit_props("p1", &obj[1]);
 		j_int("shared", shared_strings());
+		emit_heap();
 		drv_dbg();
 		j_int("rc", rc);
 		j_str("text", text);
@@ -483,6 +528,7 @@ static void drv_step(struct cmd *c)
 		emit_props("p0", &obj[0]);
 		emit_props("p1", &obj[1]);
 		j_int("shared", shared_strings());
+		emit_heap();
 		drv_dbg();
 		j_int("rc", r);
 		drv_end();
@@ -491,7 +537,10 @@ static void drv_step(struct cmd *c)
 	else if (!strcmp(a, "copy")) {
 		int from = (int) drv_int(c, "from", 1) & 1;
 		const char *mode = drv_raw(c, "mode");     /* "null": no name, "empty": "" */
-		int rc = obj[o].o._vptr->set_property(&obj[o].o, (mode && !strcmp(mode, "empty")) ? "" : 0, &obj[from].c);
+		int rc;
+		fail_arm(c);
+		rc = obj[o].o._vptr->set_property(&obj[o].o, (mode && !strcmp(mode, "empty")) ? "" : 0, &obj[from].c);
+		fail_disarm(c);
 		answer(c, rc);
 	}
 	else if (!strcmp(a, "scribble")) {
@@ -538,6 +587,7 @@ static void drv_step(struct cmd *c)
 		long long n = drv_int(c, "n", -1);
 		char *t = arg_rle(c, "c");
 		int rc = 0, done = 0;
+		fail_arm(c);
 		if (ns && m && !strcmp(m, "new") && n <= (long long) strlen(t)) {
 			rc = mpt_string_set(s[0], t, (int) n);
 			done = 1;
@@ -550,6 +600,7 @@ static void drv_step(struct cmd *c)
 			rc = mpt_string_set(s[0], *s[0] + n, -1);
 			done = 1;
 		}
+		fail_disarm(c);
 		memset(t, 'Q', strlen(t));
 		free(t);
 		drv_begin(c);
@@ -557,6 +608,7 @@ static void drv_step(struct cmd *c)
 		emit_props("p0", &obj[0]);
 		emit_props("p1", &obj[1]);
 		j_int("shared", shared_strings());
+		emit_heap();
 		drv_dbg();
 		j_int("rc", rc);
 		drv_end();
